@@ -451,3 +451,20 @@ def _own_options(E, A):
     m.push_member(mk(6))
     proto.push_member(m)
     E.oblige("post:proto-level", z3.BoolVal(all(not isinstance(o, A.IntegerOption) or o.name != "max_bytes" for _, o in proto.options())))
+
+
+@astproof("py:_ast.Scope.get_name_by_member", "Scope.get_name_by_member", ["C11"], must=["post:"])
+def _name_by_member(E, A):
+    """the name under which THAT object is declared in the scope (an import's `as` name), also when another member is declared under
+    the object's own name; None for an object that is not a member"""
+    proto = A.Proto(name="main")
+    a = A.Proto(name="shared", filepath="shared_v1.bitproto")
+    b = A.Proto(name="shared", filepath="shared.bitproto")
+    m = A.Message(name="M", _bound=proto)
+    proto.push_member(a, "old")
+    proto.push_member(b)
+    proto.push_member(m)
+    stranger = A.Message(name="M", _bound=proto)
+    E.oblige("post:as-name-wins-over-own-name", z3.BoolVal(proto.get_name_by_member(a) == "old"))
+    E.oblige("post:plain", z3.BoolVal(proto.get_name_by_member(b) == "shared" and proto.get_name_by_member(m) == "M"))
+    E.oblige("post:not-a-member", z3.BoolVal(proto.get_name_by_member(stranger) is None))
